@@ -863,3 +863,253 @@ class IncrementParentVersion(FnCheck):
         log = st.ghost['log']
         ex.oblige(st, 'state_of_the_parent_follows', z3.Implies(self.has_parent.e, z3.And(
             z3.BoolVal(len(log) == 1), log[0][1] == Val.ref(self.parent.e)) if len(log) == 1 else z3.BoolVal(False)))
+
+
+class _DescrTxBase(FnCheck):
+    prop = 'C02'
+    field_types = {'DescriptorVersion': 'int'}
+    container_hints = {'self.descriptor_updates': 'dict'}
+
+    def mk(self, b):
+        st = b.st
+        ids = b.ex.ctx.builtin_class_ids
+        self.upd = b.obj('descriptor_updates')
+        st.assume(z3.Select(st.get_arr('C'), self.upd.e) == ids['dict'])
+        st.assume(z3.Select(st.get_arr('DN'), self.upd.e) >= 0)
+        self.dv = b.int('stored_descriptor_version')
+        self.handle = b.str('handle')
+        self.stored = b.obj('stored_descriptor', DescriptorVersion=self.dv, Handle=self.handle)
+        self.idx = b.obj('descriptions.handle')
+        self.tbl = b.obj('descriptions', handle=self.idx)
+        self.mdib = b.obj('mdib', descriptions=self.tbl, xtra=b.obj('xtra'))
+        self.o = b.obj('self', cls=(TR, 'DescriptorTransaction'), _mdib=self.mdib, descriptor_updates=self.upd)
+        b.distinct(self.o, self.mdib, self.tbl, self.idx, self.upd, self.stored)
+        st.ghost['log'] = ()
+        return self.o
+
+    def item_summary(self):
+        def item(ex_, st, args, kwargs):
+            o = st.alloc('TransactionItem')
+            vals = dict(zip(('old', 'new'), args))
+            vals.update(kwargs)
+            st.write_field(o, 'old', vals['old'])
+            st.write_field(o, 'new', vals['new'])
+            return o
+        return Pure(item, name='TransactionItem(old, new)')
+
+    def get_one_summary(self):
+        def get_one(ex_, st, args, kwargs):
+            st.ghost['c:asked'] = st.box(args[0])
+            return self.stored
+        return Pure(get_one, name='descriptions.handle.get_one(handle) (C11; KeyError for unknown handles not modelled)')
+
+    def queued(self, st):
+        key = Val.str(self.handle.e)
+        dk, dv = z3.Select(st.get_arr('DK'), self.upd.e), z3.Select(st.get_arr('DV'), self.upd.e)
+        item = Val.oid(z3.Select(dv, key))
+        return z3.Select(dk, key), z3.Select(st.get_arr('f:old'), item), z3.Select(st.get_arr('f:new'), item)
+
+    def unchanged_queue(self, st0, st):
+        return z3.And(z3.Select(st.get_arr('DK'), self.upd.e) == z3.Select(st0.get_arr('DK'), self.upd.e),
+                      z3.Select(st.get_arr('DV'), self.upd.e) == z3.Select(st0.get_arr('DV'), self.upd.e))
+
+
+@register
+class GetDescriptor(_DescrTxBase):
+    id = 'C02.get_descriptor'
+    target = f'{TR}:DescriptorTransaction.get_descriptor'
+    doc = ('DescriptorTransaction.get_descriptor(handle): a handle already in the transaction or an empty handle is '
+           'refused without change; otherwise the caller gets a COPY of the stored descriptor whose DescriptorVersion is '
+           'the stored one + 1, queued together with the stored original; the stored descriptor is not changed')
+
+    def setup(self, b):
+        o = self.mk(b)
+        return o, [self.handle], {}
+
+    def callees(self, ex):
+        return {'*.get_one': self.get_one_summary(), f'{TR}:TransactionItem': self.item_summary(), 'TransactionItem': self.item_summary()}
+
+    def hooks(self, ex):
+        return CopyHooks()
+
+    def post(self, ex, st0, st, outcome, b):
+        key = Val.str(self.handle.e)
+        was = z3.Select(z3.Select(st0.get_arr('DK'), self.upd.e), key)
+        if outcome[0] == 'exc':
+            ex.oblige(st, 'refused_only_for_empty_or_duplicate_handle', z3.And(
+                z3.BoolVal(outcome[1].cls == 'ValueError'), z3.Or(was, z3.Length(self.handle.e) == 0)), info={'exc': repr(outcome[1])})
+            ex.oblige(st, 'refusal_changes_nothing', self.unchanged_queue(st0, st))
+            return
+        has, old, new = self.queued(st)
+        copies = st.ghost.get('copies', ())
+        ex.oblige(st, 'accepted_only_for_a_handle_not_yet_in_the_transaction', z3.And(z3.Not(was), z3.Length(self.handle.e) > 0))
+        ex.oblige(st, 'queued_copy_with_version_plus_one', z3.And(
+            has, old == Val.ref(self.stored.e), new == Val.ref(copies[-1][0]), copies[-1][1] == self.stored.e,
+            Val.i(z3.Select(st.get_arr('f:DescriptorVersion'), copies[-1][0])) == self.dv.e + 1,
+            st.box(outcome[1]) == new) if copies else z3.BoolVal(False))
+        ex.oblige(st, 'stored_descriptor_unchanged', Val.i(z3.Select(st.get_arr('f:DescriptorVersion'), self.stored.e)) == self.dv.e)
+        ex.oblige(st, 'looked_up_by_the_given_handle', st.ghost.get('c:asked') == key if 'c:asked' in st.ghost else z3.BoolVal(False))
+
+
+@register
+class RemoveDescriptor(_DescrTxBase):
+    id = 'C02.remove_descriptor'
+    target = f'{TR}:DescriptorTransaction.remove_descriptor'
+    doc = ('DescriptorTransaction.remove_descriptor(handle): refused without change for an empty handle or one already '
+           'in the transaction; otherwise the stored descriptor is queued for deletion (old = stored, new = None) and '
+           'nothing is changed before the commit')
+
+    def setup(self, b):
+        o = self.mk(b)
+        return o, [self.handle], {}
+
+    def callees(self, ex):
+        return {'*.get_one': self.get_one_summary(), f'{TR}:TransactionItem': self.item_summary(), 'TransactionItem': self.item_summary()}
+
+    def post(self, ex, st0, st, outcome, b):
+        key = Val.str(self.handle.e)
+        was = z3.Select(z3.Select(st0.get_arr('DK'), self.upd.e), key)
+        if outcome[0] == 'exc':
+            ex.oblige(st, 'refused_only_for_empty_or_duplicate_handle', z3.And(
+                z3.BoolVal(outcome[1].cls == 'ValueError'), z3.Or(was, z3.Length(self.handle.e) == 0)), info={'exc': repr(outcome[1])})
+            ex.oblige(st, 'refusal_changes_nothing', self.unchanged_queue(st0, st))
+            return
+        has, old, new = self.queued(st)
+        ex.oblige(st, 'queued_for_deletion_with_the_stored_descriptor', z3.And(has, old == Val.ref(self.stored.e), Val.is_none(new)))
+        ex.oblige(st, 'stored_descriptor_unchanged', Val.i(z3.Select(st.get_arr('f:DescriptorVersion'), self.stored.e)) == self.dv.e)
+
+
+@register
+class ContextWriteEntity(FnCheck):
+    id = 'C02.context_write_entity'
+    prop = 'C02'
+    tag = 'S'
+    opaque_ok = True
+    target = f'{TR}:ContextStateTransaction.write_entity'
+    field_types = {'StateVersion': 'int', 'DescriptorVersion': 'int', 'is_context_state': 'bool'}
+    stable_fields = ('StateVersion', 'DescriptorVersion', 'DescriptorHandle', 'Handle')
+    doc = ('ContextStateTransaction.write_entity(entity, handles) with version adjustment, arbitrary handle of the list: '
+           'the context state queued for commit is a copy of the entity\'s state; its DescriptorVersion is the CURRENT '
+           'DescriptorVersion of its descriptor in the MDIB (the entity may be older than the last descriptor update); an '
+           'existing state gets the stored StateVersion + 1, a new one the remembered version (set_version); a handle '
+           'without state queues the deletion of the stored state')
+    trusted = ('copy.deepcopy returns an equal, disjoint object',)
+
+    def setup(self, b):
+        st = b.st
+        ids = b.ex.ctx.builtin_class_ids
+        self.dv = b.int('descriptor_version_in_mdib')
+        self.sv_old = b.int('stored_state_version')
+        self.has_old = b.bool('state_exists_in_mdib')
+        self.has_new = b.bool('entity_has_the_state')
+        self.descr = b.obj('descriptor_in_mdib', DescriptorVersion=self.dv)
+        self.edescr = b.obj('entity_descriptor', DescriptorVersion=b.int('entity_descriptor_version'))
+        self.old = b.obj('stored_state', StateVersion=self.sv_old)
+        self.estate = b.obj('entity_state', Handle=b.str('state_handle'), DescriptorHandle=b.str('descriptor_handle'),
+                            StateVersion=b.int('entity_state_version'), DescriptorVersion=b.int('entity_state_descriptor_version'),
+                            is_context_state=b.bool('is_context_state'))
+        self.states = b.obj('entity.states')
+        self.entity = b.obj('entity', states=self.states, descriptor=self.edescr)
+        self.upd = b.obj('state_updates')
+        st.assume(z3.Select(st.get_arr('C'), self.upd.e) == ids['dict'])
+        st.assume(z3.Select(st.get_arr('DN'), self.upd.e) >= 0)
+        handles = b.obj('modified_handles')
+        st.assume(z3.Select(st.get_arr('C'), handles.e) == ids['list'])
+        self.ctx_tbl = b.obj('context_states', handle=b.obj('context_states.handle'))
+        self.descr_tbl = b.obj('descriptions', handle=b.obj('descriptions.handle'))
+        mdib = b.obj('mdib', context_states=self.ctx_tbl, descriptions=self.descr_tbl)
+        self.o = b.obj('self', cls=(TR, 'ContextStateTransaction'), _mdib=mdib, _state_updates=self.upd)
+        b.distinct(self.o, mdib, self.upd, self.entity, self.estate, self.old, self.descr, self.edescr, self.states, handles,
+                   self.ctx_tbl, self.descr_tbl)
+        self.adjust = b.bool('adjust_version_counter')
+        st.ghost['log'] = ()
+        return self.o, [self.entity, handles], {'adjust_version_counter': self.adjust}
+
+    container_hints = {'self._state_updates': 'dict'}
+
+    def callees(self, ex):
+        def states_get(ex_, st, args, kwargs):
+            recv = st.ghost.get('c:recv')
+            return vany(z3.If(self.has_new.e, Val.ref(self.estate.e), Val.none), maybe_none=True)
+
+        def get_one(ex_, st, args, kwargs):
+            st.ghost['log'] += (('get_one', st.ghost.get('c:recv'), st.box(args[0]), 'allow_none' in kwargs),)
+            if 'allow_none' not in kwargs:
+                return self.descr
+            return vany(z3.If(self.has_old.e, Val.ref(self.old.e), Val.none), maybe_none=True)
+
+        def deep(ex_, st, args, kwargs):
+            src = ex_.concrete_kind(st, args[0], ('ref',))
+            c = st.alloc('StateCopy')
+            for f in ('StateVersion', 'DescriptorVersion', 'DescriptorHandle', 'Handle'):
+                st.set_arr('f:' + f, z3.Store(st.get_arr('f:' + f), c.e, z3.Select(st.get_arr('f:' + f), src.e)))
+            st.ghost['c:copy'] = (c.e, st.box(args[0]))
+            return c
+
+        def set_version(ex_, st, args, kwargs):
+            st.ghost['log'] += (('set_version', st.ghost.get('c:recv'), st.box(args[0]), False),)
+            return NONE
+
+        def item(ex_, st, args, kwargs):
+            o = st.alloc('TransactionItem')
+            vals = dict(zip(('old', 'new'), args))
+            vals.update(kwargs)
+            st.write_field(o, 'old', vals['old'])
+            st.write_field(o, 'new', vals['new'])
+            st.ghost['c:item'] = (st.box(vals['old']), st.box(vals['new']))
+            return o
+        return {'*.get': Pure(states_get, name='entity.states.get(handle)'),
+                '*.get_one': Pure(get_one, name='index get_one (C11)'),
+                'copy.deepcopy': Pure(deep, name='copy.deepcopy', trusted=True),
+                '*.set_version': Pure(set_version, name='context_states.set_version (C02.set_version)'),
+                'sdc11073.mdib.transactionsprotocol:TransactionItem': Pure(item, name='TransactionItem(old, new)'),
+                f'{TR}:TransactionItem': Pure(item, name='TransactionItem(old, new)'),
+                'TransactionItem': Pure(item, name='TransactionItem(old, new)')}
+
+    def hooks(self, ex):
+        class H:
+            tracked_names = ()
+
+            def on_call(self, ex_, st, fv, keys, args, kwargs, node):
+                if fv.t == 'method':
+                    st.ghost['c:recv'] = st.box(fv.recv)
+                return None
+
+            @staticmethod
+            def on_loop_havoc(ex_, st, node):
+                st.ghost['log'] = ()
+                st.ghost.pop('c:copy', None)
+                st.ghost.pop('c:item', None)
+        return H()
+
+    def loops(self, ex):
+        def body(ex_, st, env):
+            if env['_phase'] != 'preserve':
+                return z3.BoolVal(True)
+            ob = lambda n, f: ex_.oblige(st, 'handle.' + n, f, kind='loop')   # noqa: E731
+            item, cp = st.ghost.get('c:item'), st.ghost.get('c:copy')
+            if item is None:
+                ob('every_listed_handle_is_queued', z3.BoolVal(False))
+                return z3.BoolVal(True)
+            old, new = item
+            ob('queued_with_the_stored_state', old == z3.If(self.has_old.e, Val.ref(self.old.e), Val.none))
+            if cp is None:
+                ob('deletion_only_for_a_handle_without_state', z3.And(z3.Not(self.has_new.e), Val.is_none(new)))
+                return z3.BoolVal(True)
+            ob('queued_state_is_a_copy_of_the_entity_state', z3.And(new == Val.ref(cp[0]), cp[1] == Val.ref(self.estate.e)))
+            F = lambda n: Val.i(z3.Select(st.get_arr('f:' + n), cp[0]))   # noqa: E731
+            ob('descriptor_version_follows_the_descriptor_in_the_mdib', z3.Implies(self.adjust.e, F('DescriptorVersion') == self.dv.e))
+            ob('existing_state_version_incremented_by_one', z3.Implies(z3.And(self.adjust.e, self.has_old.e), F('StateVersion') == self.sv_old.e + 1))
+            sv = [x for x in st.ghost['log'] if x[0] == 'set_version']
+            ob('new_state_takes_the_remembered_version', z3.Implies(z3.And(self.adjust.e, z3.Not(self.has_old.e)), z3.And(
+                z3.BoolVal(len(sv) == 1), sv[0][2] == Val.ref(cp[0])) if len(sv) == 1 else z3.BoolVal(False)))
+            return z3.BoolVal(True)
+        return {0: LoopSpec(inv=body, havoc_heap=['DK', 'DV', 'DN'])}
+
+    def finish(self, ex, st0, outcomes, b):
+        names = {o.name for o in ex.ctx.obligations}
+        ex.oblige(st0, 'every_handle_is_processed', z3.BoolVal('handle.descriptor_version_follows_the_descriptor_in_the_mdib' in names))
+
+    def post(self, ex, st0, st, outcome, b):
+        for f in ('StateVersion', 'DescriptorVersion'):
+            ex.oblige(st, f'entity_state_{f}_unchanged', z3.Select(st.get_arr('f:' + f), self.estate.e) == z3.Select(st0.get_arr('f:' + f), self.estate.e))
